@@ -635,3 +635,66 @@ EXPLANATION += (" Refit equality of the stand-alone trees: the feature shuffle i
                 "DecisionTree{Classifier,Regressor}::fit and it is dominated by mtry < number of attributes, which fit makes false "
                 "(E2b-guarded, C05's rule).")
 TECHNIQUE += "; RNG-draw reachability and dominance for the deterministic tree estimators"
+
+
+# ------------------------------------------------------------------ map visitors: the duplicate test of a field guards the assignment of that same field
+_run_pre_visitmap = run
+
+
+def visit_map_pairing(ck, prog):
+    """A serde map visitor keeps one Option per field; `X = Some(map.next_value()?)` sits behind `X.is_some()` /
+    `X.is_none()` of the SAME X.  With the test on a sibling (copy-paste of the arm above) a document whose keys arrive in
+    another order - a key-sorted serde_json::Value, a hand-written file - is rejected with a bogus duplicate-field error, or
+    a real duplicate is accepted.  Checked for every visit_map body of the crate, derived and hand-written."""
+    rule, inst = "E5-visitor", "visit_map: the duplicate test that guards `X = Some(next_value)` tests X"
+    n_bodies = n = 0
+    for b in prog.bodies.values():
+        if not b.path.endswith("::visit_map") or not b.loc[0].startswith("src/"):
+            continue
+        n_bodies += 1
+        res = Resolver(b)
+        tests = []
+        for (bb, term, tb, fb) in guards.bool_switches(b, res):
+            if term[0] == "call" and term[1].split("::")[-1] in ("is_some", "is_none") and term[2] and term[2][0][0] in ("phi", "local"):
+                tests.append((bb, term[2][0][1], term[1].split("::")[-1], tb, fb))
+        if not tests:
+            continue
+        # the per-field Option trackers: locals some test looks at, or that start out as None (`let mut nrows = None;`)
+        tracked = {t[1] for t in tests}
+        for l, ds in b.defs.items():
+            for d in ds:
+                if d.kind == "assign" and d.data["r"]["k"] == "agg" and d.data["r"].get("variant") == "None":
+                    tracked.add(l)
+        for l, ds in b.defs.items():
+            if l not in tracked:
+                continue
+            for d in ds:
+                if d.kind != "assign":
+                    continue
+                v = res.rvalue(d.data["r"], 0, ())
+                if not any(s[0] == "call" and s[1].split("::")[-1] == "next_value" for s in subterms(v)):
+                    continue
+                dom = [t for t in tests if b.dominates(t[0], d.bb) and (b.dominates(t[3], d.bb) != b.dominates(t[4], d.bb))]
+                if not dom:
+                    continue
+                inner = [t for t in dom if not any(o is not t and b.dominates(t[0], o[0]) for o in dom)]
+                n += 1
+                t = inner[0]
+                nm = b.local_name(l) or f"_{l}"
+                if t[1] == l:
+                    ck.ok(rule, inst, b.path, b.where(d.bb, d.idx), f"`{nm}` assigned behind {t[2]}() of `{nm}`")
+                else:
+                    ck.violation(rule, inst, b.path, b.where(d.bb, d.idx), ordinal=nm, expected=f"`{nm} = Some(..)` guarded by `{nm}.{t[2]}()`",
+                                 found=f"`{nm}` is assigned behind `{b.local_name(t[1]) or t[1]}.{t[2]}()`: the duplicate test looks at a different field")
+    ck.extra["visit_map_bodies"] = n_bodies
+    if n == 0:
+        ck.note(f"{inst}: no guarded field assignment recognised in {n_bodies} visit_map bodies (feature serde off?): no instance")
+
+
+def run(ck, prog):
+    _run_pre_visitmap(ck, prog)
+    visit_map_pairing(ck, prog)
+
+
+EXPLANATION += (" Map visitors (derived and hand-written): the is_some()/is_none() test that guards `X = Some(next_value)` is a test of "
+                "X itself.")
